@@ -344,6 +344,7 @@ fn c13() -> Report {
         let predicted: f64 = w.blocks.iter().map(|b| predicted_block(b)).product();
         // baseline (schedule []) per callback, compared with the model; then split the tree two levels deep
         let mut jobs: Vec<Value> = Vec::new();
+        let mut failed_baselines: Vec<(String, String)> = Vec::new();
         for cb in cbs {
             let (r, oc) = run_once(&data, &dump, w.coin, cb, &[]);
             if let Some(d) = &oc.diverged {
@@ -365,7 +366,8 @@ fn c13() -> Report {
             }
             let baseline = observe(&r, &wdir);
             if r.code != Some(0) {
-                rep.machinery(format!("{} {}: schedule [] failed: {}", w.name, cb, r.stderr.chars().take(200).collect::<String>()));
+                // not necessarily the harness: a waiting task may make even schedule [] the odd one out. Judged below.
+                failed_baselines.push((cb.to_string(), r.stderr.chars().take(200).collect::<String>()));
             }
             // replay determinism: the same schedule twice must give identical observations
             let (r2, _) = run_once(&data, &dump, w.coin, cb, &[]);
@@ -450,6 +452,12 @@ fn c13() -> Report {
                 if !s["violation"].is_null() {
                     rep.disagree("outcome-depends-on-schedule", format!("{} {} {}: schedule {} (execution order {}) gives a different result than schedule []", w.coin, w.name, cb, s["violation"]["schedule"], s["violation"]["execution_order"]), json!({"kind": "schedule", "world": {"name": w.name, "coin": w.coin, "blocks": w.blocks}, "callback": cb, "schedule": s["violation"]["schedule"]}));
                 }
+            }
+        }
+        for (cb, err) in &failed_baselines {
+            // every schedule failing in the same way is no statement about schedules: the world or the harness is broken
+            if per_cb.get(cb).map(|e| e.2.len() <= 1).unwrap_or(true) && !rep.disagreements.keys().any(|k| k.contains("outcome-depends-on-schedule")) {
+                rep.machinery(format!("{} {}: every schedule failed: {}", w.name, cb, err));
             }
         }
         let mut wsum = serde_json::Map::new();
@@ -665,22 +673,22 @@ fn big_block_part(rep: &mut Report, root: &Path) {
     for cbn in ["csvdump", "unspentcsvdump", "balances", "simplestats", "opreturn"] {
         let (r0, _) = run_once_policy(&data, &dump, "bitcoin", cbn, &[], 1, 0);
         let baseline = observe(&r0, &wdir);
-        if r0.code != Some(0) {
-            rep.machinery(format!("big-block world: baseline {} run failed: {}", cbn, r0.stderr.chars().take(200).collect::<String>()));
-            continue;
-        }
         let family: Vec<(usize, usize)> = if is_thorough() { [1usize, 2, 3].iter().flat_map(|w| [0usize, 1, 2, 7, 4099].iter().map(move |p| (*w, *p))).collect() } else { vec![(2, 0), (2, 1), (2, 7), (3, 1)] };
-        'outer: for (workers, policy) in family {
-            {
-                let (r, oc) = run_once_policy(&data, &dump, "bitcoin", cbn, &[], workers, policy);
-                n += 1;
-                traces.insert(h8(format!("{:?}", oc.order).as_bytes()));
-                let o = observe(&r, &wdir);
-                if o != baseline {
-                    rep.disagree("big-block:outcome-depends-on-schedule", format!("{} on a block of {} transactions, {} workers, schedule policy {}: output differs from the 1-worker first-enabled schedule", cbn, n_tx, workers, policy), json!({"kind": "pool-policy-schedule", "world": format!("one block of {} chained transactions", n_tx), "callback": cbn, "workers": workers, "policy": policy}));
-                    break 'outer;
-                }
+        let mut any_ok = r0.code == Some(0);
+        for (workers, policy) in family {
+            let (r, oc) = run_once_policy(&data, &dump, "bitcoin", cbn, &[], workers, policy);
+            n += 1;
+            traces.insert(h8(format!("{:?}", oc.order).as_bytes()));
+            any_ok |= r.code == Some(0);
+            let o = observe(&r, &wdir);
+            if o != baseline {
+                // (a waiting worker may run other pending tasks, so even the 1-worker first-enabled schedule can be the one that is off)
+                rep.disagree("big-block:outcome-depends-on-schedule", format!("{} on a block of {} transactions: {} workers with schedule policy {} (exit {:?}) and 1 worker with the first-enabled policy (exit {:?}) give different results", cbn, n_tx, workers, policy, r.code, r0.code), json!({"kind": "pool-policy-schedule", "world": format!("one block of {} chained transactions", n_tx), "callback": cbn, "workers": workers, "policy": policy}));
+                break;
             }
+        }
+        if !any_ok {
+            rep.machinery(format!("big-block world: every schedule of {} failed: {}", cbn, r0.stderr.chars().take(200).collect::<String>()));
         }
     }
     rep.states += n;
